@@ -21,12 +21,14 @@ from __future__ import annotations
 import math
 import os
 import random
+import sys
 from fractions import Fraction
 from unittest import mock
 
 from . import common
 from . import c06_f32
 from . import c06_edge
+from . import c06_tie
 from .common import rlit, lst
 
 HEADER = """From Coq Require Import Reals List Lra.
@@ -965,7 +967,49 @@ def emit(ctx, cases):
         ctx.hist("zero-density cases evaluated on C05's special-value model of mh_step (vm_compute shard)", len(ext))
     ctx.hist("R-lemmas emitted", nl)
     ctx.hist("shards", len(shards))
+    source_tie(ctx)
     return shards
+
+
+# ------------------------------------------------------------------------------------------------
+# second tie: the current source translated to Gallina and proved equal to the model (c06_tie.py)
+# ------------------------------------------------------------------------------------------------
+def source_tie(ctx):
+    """Runs after the Coq build (emit is only called when it succeeded).  A broken source tie alone is no
+    alarm: it is recorded in coverage.source_tie; run() adds it to ctx.broken only when the behavioural
+    correspondence or the oracle report a violation as well."""
+    try:
+        tie = c06_tie.run(ctx, common.REPO)
+    except Exception as ex:      # optional evidence; never let it abort the check
+        tie = {"translated": [], "lemmas_ok": False, "lemmas": [], "not_tied": {"all": repr(ex)},
+               "detail": f"SOURCE TIE BROKEN: c06_tie aborted: {type(ex).__name__}: {ex}"}
+    ctx.cov["source_tie"] = tie
+    for sec in tie.get("not_tied", {}):
+        ctx.hist("T.source_tie_broken." + sec)
+    ctx.hist("T.source_tie_lemmas", len(tie.get("lemmas", [])))
+    ctx.extra_tb = getattr(ctx, "extra_tb", []) + [
+        "source tie (advisory): tools/py2gallina_c06.py (fail-closed Python-ast -> Gallina translator: numbers are real numbers, 1-d "
+        "arrays / lower-triangular factors are the vec / tri of Analytic/Gauss.v, triangular_solve is fwd_subst / back_subst, "
+        "v @ L is ltmul, norm.logpdf is std_normal_logpdf, jax.random.normal / split and mh_step are oracle arguments, a model state "
+        "is the flat position of the block, _score / _chol_info are the model's score / ch) and the statements of the lemmas in "
+        "harness/lv/c06_tie.py; result of this run in coverage.source_tie"]
+
+
+def run(ctx):
+    orig_finish = ctx.finish
+
+    def finish(*a, **k):
+        tie = ctx.cov.get("source_tie")
+        if tie is None:
+            ctx.cov["source_tie"] = {"translated": [], "lemmas_ok": False, "detail": "not attempted: the Coq build failed"}
+        elif not tie.get("lemmas_ok") and ctx.violations:
+            # the behavioural part / the oracle disagree too: name the broken source tie in the replay files
+            for sec, why in tie.get("not_tied", {}).items():
+                if not why.startswith("needs "):
+                    ctx.broken.append(f"source tie [{sec}]: {why}"[:400])
+        return orig_finish(*a, **k)
+    ctx.finish = finish
+    return common.run_standard(ctx, sys.modules[__name__])
 
 
 _DIAG = {"coq_runs": 0}
